@@ -41,7 +41,7 @@ def observe_running(w: progs.World, label: str, problems: List[str], records: Li
         return
     ctxs = st.frames[0].contexts
     got = [(ids.get(id(c.obj), "?" if c.obj is not None else None), c.is_async, c.is_exiting) for c in ctxs]
-    want = [(mid, type(w.mgrs[mid]).__name__ == "AMgr", ex) for mid, ex in truth]
+    want = [(mid, type(w.mgrs[mid]).__name__.endswith("AMgr"), ex) for mid, ex in truth]
     from stackscope._lowlevel import InspectionWarning
 
     ws = [str(x.message)[:160] for x in caught if issubclass(x.category, InspectionWarning)]
